@@ -98,8 +98,15 @@ class ConstructAMF(Contract):
             return Abstract("asarray", of=args[0])
         if name == "AnnotatedMetricFunction":
             return Abstract("amf", kw=dict(kwargs))
+        if name == "getattr" and len(args) >= 2 and args[0] is st.env.get("func") and args[1] == "__name__":
+            return String("name_of_the_metric_function")          # any string (lambdas: "<lambda>", partial objects: attribute missing -> default)
         if name == "str" and is_z3(args[0]):
             return args[0]
+        return NotImplemented
+
+    def on_attr(self, eng, st, node, base, attr):
+        if base is st.env.get("func") and attr == "__name__":
+            return String("name_of_the_metric_function")
         return NotImplemented
 
     def on_store_subscript(self, eng, st, node, base, index, value):
